@@ -406,15 +406,28 @@ fn same(e: &BitmapEvent, r: &Rect) -> Option<String> {
 pub fn check_case(c: &Case, rep: &mut Report) {
     rep.eval();
     let desc = describe(c);
+    // half of the sessions are activated by a server whose capability sets carry other (equally legitimate) values, or only
+    // some of the sets, in another order: what the server says about ITSELF has no bearing on what it may send
+    let varied = c.gen[1] % 2 == 1;
+    let mut profile = session::full_profile();
+    if varied {
+        let mut vr = Rng::derive(c.gen[2], "C10-caps", c.gen[0], c.gen[1]);
+        profile.caps = crate::gen::caps_varied(&mut vr);
+    }
     let opened = mon::guarded(|| -> Result<session::Session, String> {
-        let mut s = if c.path == "rdpclient-tls" { session::open_real(session::full_profile(), false)? } else { session::open_plain(session::full_profile(), false)? };
+        let mut s = if c.path == "rdpclient-tls" { session::open_real(profile.clone(), false)? } else { session::open_plain(profile.clone(), false)? };
         s.activate()?;
         Ok(s)
     });
     let mut s = match opened {
         Ok(Ok(s)) => s,
         Ok(Err(e)) => {
-            rep.selfcheck_fail(format!("could not open an active session: {}", e));
+            if varied {
+                // whether the client takes this server is C03's subject; without a session there is nothing to observe
+                rep.hist("session-with-varied-capabilities-not-opened");
+            } else {
+                rep.selfcheck_fail(format!("could not open an active session: {}", e));
+            }
             return;
         }
         Err(p) => {
